@@ -163,9 +163,10 @@ def Tracks (c : Cfg) (d : Dir) (u : Bytes) (ps : ParamSet) (salt0 pw0 : Bytes) (
 
 theorem tracks_step (c : Cfg) (d : Dir) (u : Bytes) (ps : ParamSet) (salt0 pw0 : Bytes) (now0 : Int) (op : Op)
     (h : Tracks c d u ps salt0 pw0 now0)
-    (hop : op.user ≠ u ∨ ∃ st, op = .setAdmin u st) : Tracks c (step c d op) u ps salt0 pw0 now0 := by
+    (hop : op.user ≠ u ∨ (∃ st, op = .setAdmin u st) ∨ ∃ pw adm now salt, op = .add u pw adm now salt) :
+    Tracks c (step c d op) u ps salt0 pw0 now0 := by
   obtain ⟨a, ha⟩ := h
-  rcases hop with hne | ⟨st, rfl⟩
+  rcases hop with hne | ⟨st, rfl⟩ | ⟨pw, adm, now, salt, rfl⟩
   · -- an operation on another user: u's files are untouched
     have hs : sameUser d (step c d op) u := by
       cases op with
@@ -194,17 +195,26 @@ theorem tracks_step (c : Cfg) (d : Dir) (u : Bytes) (ps : ParamSet) (salt0 pw0 :
       refine ⟨st, fun p => ?_⟩
       rw [setAdmin_authenticate c hsa p, ha p]
       by_cases hq : ps.digest salt0 p = ps.digest salt0 pw0 <;> simp [hq]
+  · -- an add of u itself: u exists (its password authenticates), so the add fails and changes nothing
+    have hauth := ha pw0
+    simp only [if_true] at hauth
+    obtain ⟨a', b, up, ts, he, _, _, _⟩ := (authenticate_ok_iff c d u pw0 _).1 hauth
+    have : add c d u pw adm now salt = .error .exists_ := by simp [add, he]
+    simp only [step, this]
+    exact ⟨a, ha⟩
 
 /-- **Verdict tracks the last acknowledged write, for every history.** After a successful add
     or update of `u` with password `pw0`, followed by ANY finite history of operations none of
-    which is an add, update or remove of `u` itself (operations on any other users, set-admin of
-    `u`, successful or failing), authenticating `u` with `p` succeeds exactly when `p` has the
-    digest of `pw0` — and reports the time of that write. -/
+    which is an update or remove of `u` itself (operations on any other users, set-admin of
+    `u`, further — necessarily failing — adds of `u`; successful or failing), authenticating
+    `u` with `p` succeeds exactly when `p` has the digest of `pw0` — and reports the time of
+    that write. (An update of `u` in the remainder either succeeds, and is then itself the most
+    recent write, or fails on the work area and changes nothing: `step`.) -/
 theorem verdict_tracks_last_write {c : Cfg} {d0 : Dir} {u pw0 salt0 : Bytes} {now0 : Int} (w : Op)
     (hw : (∃ adm, w = .add u pw0 adm now0 salt0 ∧ ∃ d', add c d0 u pw0 adm now0 salt0 = .ok d') ∨
           (w = .update u pw0 now0 salt0 ∧ ∃ d', update c d0 u pw0 now0 salt0 = .ok d'))
     (hc : CfgOk c) (ht : timeOk now0) (h2 : List Op)
-    (hh : ∀ op ∈ h2, op.user ≠ u ∨ ∃ st, op = .setAdmin u st) :
+    (hh : ∀ op ∈ h2, op.user ≠ u ∨ (∃ st, op = .setAdmin u st) ∨ ∃ pw adm now salt, op = .add u pw adm now salt) :
     ∃ ps, c.lookup c.default = some ps ∧ Tracks c (run c (step c d0 w) h2) u ps salt0 pw0 now0 := by
   -- the write itself
   have h1 : ∃ ps, c.lookup c.default = some ps ∧ Tracks c (step c d0 w) u ps salt0 pw0 now0 := by
@@ -230,5 +240,87 @@ theorem near_miss_fails {c : Cfg} {d : Dir} {u : Bytes} {ps : ParamSet} {salt0 p
     authenticate c d u p = .error .wrongPassword := by
   obtain ⟨a, ha⟩ := h
   rw [ha p]; simp [hne]
+
+
+/-- `u` has no file at all. -/
+def Absent (d : Dir) (u : Bytes) : Prop := get d (u ++ adminExt) = none ∧ get d (u ++ userExt) = none
+
+theorem absent_exists {d : Dir} {u : Bytes} (h : Absent d u) :
+    exists_ d u = .ok (false, false) ∨ ∃ e, exists_ d u = .error e := by
+  unfold exists_
+  by_cases hv : validName u = true
+  · by_cases hl : u.length + adminExt.length > nameMax
+    · exact Or.inr ⟨.io, by simp [hv, hl]⟩
+    · exact Or.inl (by simp [hv, hl, has, h.1, h.2])
+  · exact Or.inr ⟨.invalidName, by simp [hv]⟩
+
+theorem absent_auth_fails (c : Cfg) {d : Dir} {u : Bytes} (h : Absent d u) (p : Bytes) :
+    ∃ e, authenticate c d u p = .error e := by
+  rcases absent_exists h with he | ⟨e, he⟩
+  · exact ⟨.noent, by simp [authenticate, he]⟩
+  · exact ⟨e, by simp [authenticate, he]⟩
+
+theorem absent_step (c : Cfg) (d : Dir) (u : Bytes) (op : Op) (h : Absent d u)
+    (hop : ∀ pw adm now salt, op ≠ .add u pw adm now salt) : Absent (step c d op) u := by
+  by_cases hne : op.user = u
+  · cases op with
+    | add v pw adm now salt => simp only [Op.user] at hne; subst hne; exact absurd rfl (hop pw adm now salt)
+    | update v pw now salt =>
+      simp only [Op.user] at hne; subst hne
+      have : ∃ e, update c d v pw now salt = .error e := by
+        rcases absent_exists h with he | ⟨e, he⟩
+        · exact ⟨.noent, by simp [update, he]⟩
+        · exact ⟨e, by simp [update, he]⟩
+      obtain ⟨e, he⟩ := this
+      simp only [step, he]; exact h
+    | setAdmin v st =>
+      simp only [Op.user] at hne; subst hne
+      have : ∃ e, setAdmin d v st = .error e := by
+        rcases absent_exists h with he | ⟨e, he⟩
+        · exact ⟨.noent, by simp [setAdmin, he]⟩
+        · exact ⟨e, by simp [setAdmin, he]⟩
+      obtain ⟨e, he⟩ := this
+      simp only [step, he]; exact h
+    | remove v =>
+      simp only [Op.user] at hne; subst hne
+      simp only [step, remove]
+      split
+      · exact h
+      · exact ⟨by rw [get_del_ne _ (append_adminExt_ne_userExt v v), get_del_self], by rw [get_del_self]⟩
+  · have hs : sameUser d (step c d op) u := by
+      cases op with
+      | add v pw adm now salt =>
+        simp only [step]
+        cases hadd : add c d v pw adm now salt with
+        | error e => exact ⟨rfl, rfl⟩
+        | ok d' => exact add_other_user hadd (fun e => hne e.symm)
+      | update v pw now salt =>
+        simp only [step]
+        cases hup : update c d v pw now salt with
+        | error e => exact ⟨rfl, rfl⟩
+        | ok d' => exact update_other_user hup (fun e => hne e.symm)
+      | setAdmin v st =>
+        simp only [step]
+        cases hsa : setAdmin d v st with
+        | error e => exact ⟨rfl, rfl⟩
+        | ok d' => exact setAdmin_other_user hsa (fun e => hne e.symm)
+      | remove v => exact remove_other_user d (fun e => hne e.symm)
+    exact ⟨hs.1 ▸ h.1, hs.2 ▸ h.2⟩
+
+/-- **After a removal nothing authenticates, for every history**: once `u` is removed, whatever
+    operations follow on any users — including updates, set-admins and further removals of `u`
+    itself — no password authenticates `u` until `u` is added again. -/
+theorem removed_stays_absent (c : Cfg) (d0 : Dir) (u : Bytes) (hv : validName u = true) (h2 : List Op)
+    (hh : ∀ op ∈ h2, ∀ pw adm now salt, op ≠ .add u pw adm now salt) (p : Bytes) :
+    ∃ e, authenticate c (run c (step c d0 (.remove u)) h2) u p = .error e := by
+  have h0 : Absent (step c d0 (.remove u)) u := by
+    simp only [step, remove, hv, Bool.not_true, Bool.false_eq_true, if_false]
+    exact ⟨by rw [get_del_ne _ (append_adminExt_ne_userExt u u), get_del_self], by rw [get_del_self]⟩
+  generalize step c d0 (.remove u) = d at h0
+  induction h2 generalizing d with
+  | nil => exact absent_auth_fails c h0 p
+  | cons op rest ih =>
+    simp only [run, List.foldl]
+    exact ih (fun o ho => hh o (by simp [ho])) (step c d op) (absent_step c d u op h0 (hh op (by simp)))
 
 end Whawty.Store.C01
